@@ -70,4 +70,31 @@ def getItems {ι} (arr : List (Arrival ι)) : Nat ⊕ GMap Nat ι :=
   | some i => .inl i
   | none => .inr (placeItems arr)
 
+/-! ### `storagesc.verifyChallengeTickets`: one goroutine per ticket
+
+Worker `i` looks at ticket `i` only (`check i`, a function of the ticket list), writes `errors[i]` (and `validators[i]`,
+and adds to the atomic counters); after `wg.Wait()` the errors are scanned in index order and the first one is returned.
+`π` is the order in which the workers complete. -/
+
+/-- the `errors` slice after the workers have run in completion order `π` -/
+def workerStep (check : Nat → Option ε) (m : GMap Nat ε) (i : Nat) : GMap Nat ε :=
+  match check i with
+  | some e => m.set i e
+  | none => m
+
+def runWorkers (check : Nat → Option ε) (π : List Nat) : GMap Nat ε := π.foldl (workerStep check) (fun _ => none)
+
+/-- `for _, err := range errors { if err != nil { return nil, err } }` over `n` tickets -/
+def pickFirst (n : Nat) (errs : GMap Nat ε) : Option ε := (List.range n).findSome? errs
+
+/-- the variant with a shared "already rejected" flag that every worker tests first (an early-out optimisation):
+the state is (flag, errors). Not what the code does — kept as the recorded reason why the closure's shared variables
+are pinned in `Props/C06.lean`. -/
+def runWorkersEarlyOut (check : Nat → Option ε) (π : List Nat) : Bool × GMap Nat ε :=
+  π.foldl (fun st i =>
+    if st.1 then st
+    else match check i with
+      | some e => (true, st.2.set i e)
+      | none => st) (false, fun _ => none)
+
 end ZChain.Det
